@@ -92,7 +92,17 @@ theorem Same.trans {a b c : Index} (h1 : Same a b) (h2 : Same b c) : Same a c :=
   ⟨h2.disk.trans h1.disk, h2.dirs.trans h1.dirs, h2.sp.trans h1.sp, h2.ed.trans h1.ed,
    fun x => (h2.ex x).trans (h1.ex x), fun f => (h2.ct f).trans (h1.ct f)⟩
 
-theorem findModuleFile_same {a b : Index} (h : Same a b) : ∀ (parts : List String) (base : Path),
+/-- `b` shows the same files and directories as `a` (contents aside): all module resolution sees -/
+structure SameFS (a b : Index) : Prop where
+  disk : b.disk = a.disk
+  dirs : b.dirs = a.dirs
+  sp : b.sitePackages = a.sitePackages
+  ed : b.editable = a.editable
+  ex : ∀ x, (ahas b.disk x || ahas b.cache x) = (ahas a.disk x || ahas a.cache x)
+
+theorem Same.fs {a b : Index} (h : Same a b) : SameFS a b := ⟨h.disk, h.dirs, h.sp, h.ed, h.ex⟩
+
+theorem findModuleFile_same {a b : Index} (h : SameFS a b) : ∀ (parts : List String) (base : Path),
     findModuleFile b parts base = findModuleFile a parts base := by
   intro parts
   induction parts with
@@ -112,7 +122,7 @@ theorem findModuleFile_same {a b : Index} (h : Same a b) : ∀ (parts : List Str
       unfold isDir
       rw [h.dirs]
 
-theorem resolveModule_same {a b : Index} (h : Same a b) (m : String) (f : Path) :
+theorem resolveModule_same {a b : Index} (h : SameFS a b) (m : String) (f : Path) :
     b.resolveModule m f = a.resolveModule m f := by
   have hf : findModuleFile b = findModuleFile a := by
     funext parts base; exact findModuleFile_same h parts base
@@ -130,7 +140,7 @@ def marksOf (st : Index) (f : Path) : List Path :=
 
 theorem marksOf_same {a b : Index} (h : Same a b) (f : Path) : marksOf b f = marksOf a f := by
   have hr : b.resolveModule = a.resolveModule := by
-    funext m g; exact resolveModule_same h m g
+    funext m g; exact resolveModule_same h.fs m g
   unfold marksOf
   rw [h.ct f, hr]
 
@@ -389,7 +399,7 @@ theorem fold_marks (st0 : Index) (P0 : List Path) (f : Path) (todo : List Path) 
   | cons a l ih =>
     intro b hb
     simp only [List.foldl_cons]
-    have hres : b.st.resolveModule (md a) f = st0.resolveModule (md a) f := resolveModule_same hb.same (md a) f
+    have hres : b.st.resolveModule (md a) f = st0.resolveModule (md a) f := resolveModule_same hb.same.fs (md a) f
     -- the first step
     have hstep : Inv st0 P0 (some f) todo (match b.st.resolveModule (md a) f with
           | some t => importStep (mk a) b t
